@@ -40,6 +40,18 @@ Theorem C20_predecode_disagrees_on_duplicated_attribute_refuted :
 Proof. exact predecode_disagrees_on_duplicated_attribute. Qed.
 Print Assumptions C20_predecode_disagrees_on_duplicated_attribute_refuted.
 
+(* outside the premise (root signed): the known finding F11, witnessed on the model — the presented root carries
+   xmlns:ID / xmlns:Destination after its genuine attributes; the pre-decoder reports them, validation decodes the tree the
+   signature library returns for an exclusive-canonicalisation signature (unused declarations dropped) *)
+Theorem C20_predecode_disagrees_on_signed_root_with_xmlns_named_attributes_refuted :
+  well_formed_attrs f11_raw = true /\
+  (match unmarshal_base_response f11_raw with Ok b => Some (br_id b, br_destination b) | Err _ => None end)
+    = Some ("_evil", "https://evil.example.com/acs")%string /\
+  (match unmarshal_response f11_verified with Ok r => Some (r_id r, r_destination r) | Err _ => None end)
+    = Some ("_good", "https://sp.example.com/acs")%string.
+Proof. exact predecode_disagrees_on_signed_root_with_xmlns_named_attributes. Qed.
+Print Assumptions C20_predecode_disagrees_on_signed_root_with_xmlns_named_attributes_refuted.
+
 (* ---- the pre-decoder and the full decoder read the same, normative, binding table ---- *)
 From V Require Import SchemaDefs Generated SamlSchema P_SamlSchema.
 Theorem C20_decode_schema_is_saml_core : xml_schema = saml_core_schema.
